@@ -40,7 +40,7 @@ ORACLE_OWNER = {
     "conc-ledger": ["C01"], "conc-dup": ["C02"], "conc-attempts": ["C02"], "conc-rdy": ["C03"],
     "conc-conservation": ["C13"], "conc-negative": ["C13", "C03"], "conc-inv": PROPS_ALL, "race": PROPS_ALL,
     "f8": ["C13", "C03"], "bad-frame": ["C01"], "attempts-wrap-65536": ["C02"],
-    "pump-late-flush": ["C03"], "pump-newer": ["C03"], "pump-order": ["C03", "C02"], "pump-lost-frame": ["C03", "C01"],
+    "eph-topic-drop": ["C01"], "sample-drop": ["C13", "C01"], "pump-late-flush": ["C03"], "pump-newer": ["C03"], "pump-order": ["C03", "C02"], "pump-lost-frame": ["C03", "C01"],
 }
 
 
@@ -60,9 +60,9 @@ def diff_owner(op, impl, model):
         return ["C01", "C02"]
     if k in ("rdy", "cls"):
         return ["C03"]
-    if k in ("pausec", "unpausec", "pauset", "unpauset"):
+    if k in ("pausec", "unpausec", "pauset", "unpauset", "tpause"):   # tpause: leg busypause as a schedule of Nsq.Model.TopicPause (audit A10)
         return ["C03"]
-    if k in ("stats", "tdump"):
+    if k in ("stats", "tdump", "statsq"):
         return ["C13"] + (["C01"] if k == "tdump" else [])
     if k == "dump":
         a = dict(x.split("=", 1) for x in impl.split(" ") if "=" in x and not x.startswith("["))
@@ -81,7 +81,7 @@ def diff_owner(op, impl, model):
         if impl.split("inflight=")[-1].split("mc=")[0] != model.split("inflight=")[-1].split("mc=")[0]:
             out.update(["C02", "C01"])
         return sorted(out) or PROPS_ALL
-    if k in ("pump", "split", "settle", "sdrop", "pub", "mpub", "dpub", "empty", "sub", "disc", "chan", "topic"):
+    if k in ("pump", "split", "settle", "sdrop", "pub", "mpub", "dpub", "empty", "sub", "disc", "chan", "topic", "teph"):   # teph: leg ephtopic as a run of Nsq.Model.TopicEph (audit A5)
         return ["C01"] + (["C03"] if k in ("pump", "settle") else []) + (["C13"] if k == "empty" else [])
     return PROPS_ALL
 
@@ -111,6 +111,7 @@ def cache_key(ctx):
         glob.glob(os.path.join(ROOT, "harness", "common", "*")) + \
         glob.glob(os.path.join(ROOT, "lean", "Nsq", "Model", "Chan*.lean")) + \
         [os.path.join(ROOT, "lean", "Nsq", "Model", "Pump.lean")] + \
+        glob.glob(os.path.join(ROOT, "lean", "Nsq", "Model", "Topic*.lean")) + \
         [os.path.join(ROOT, "lean", "DriverE2.lean"), os.path.join(ROOT, "lib", "e2.py")] + \
         glob.glob(os.path.join(ROOT, "corpus", "C*", "**", "*.ops"), recursive=True)
     # (only what package nsqd is built from: other engineers' fixes elsewhere in the tree do not invalidate the run)
